@@ -359,6 +359,14 @@ theorem hs_dropped_before_features (c : HConn) (hc : c.deferred = none) (rs : Li
     have : hsStep c (.status x.1 x.2) = c := by simp [hsStep, hc]
     rw [this]; exact ih
 
+theorem scanStatus_eq (v : View) (xs : List (Nat × Port)) :
+    scanStatus v xs = (List.range xs.length).map (fun i => (xs.take (i + 1)).foldl (fun v x => portStatus v x.1 x.2) v) := by
+  induction xs generalizing v with
+  | nil => rfl
+  | cons x xs ih =>
+    rw [scanStatus, ih, List.length_cons, List.range_succ_eq_map, List.map_cons, List.map_map]
+    simp
+
 /-! ### `original_ports` is written only by the features reply -/
 
 theorem portStatus_orig (v : View) (r : Nat) (p : Port) : (portStatus v r p).orig = v.orig := by
